@@ -43,6 +43,7 @@ type Outcome struct {
 	Reached   []string `json:"reached"`
 	Observes  []Obs    `json:"observes"`
 	Leftover  int      `json:"tape_leftover"`
+	Notes     []string `json:"notes,omitempty"`
 }
 
 type state struct {
@@ -276,7 +277,8 @@ func WatchWrites(root interface{}, tag string) {}
 // WatchOn switches the write monitor on or off.
 func WatchOn(on bool) {}
 
-func Note(s string) {}
+// Note records a free-text remark in the native outcome (e.g. the message of a caught panic).
+func Note(s string) { cur.out.Notes = append(cur.out.Notes, s) }
 
 // BytesOf returns arbitrary bytes whose length is one of lens (the engine forks on it).
 func BytesOf(tag string, lens ...int) []byte {
